@@ -17,6 +17,20 @@ def recorderEligible (W : World) (P : Policy) (A : Option AttState) (ref : Strin
        | some d => !contributed P A ref frm tree none d
        | none => false)))
 
+/-- the same, restricted to the rule the prediction relied on (`rule`: the name of the rule that is
+one principal short): when several rules are consulted for the branch, "a not-yet-counted principal
+authorized for the branch" is a principal of THAT rule — a principal of another consulted rule with
+its own threshold cannot complete it -/
+def recorderEligibleFor (W : World) (P : Policy) (A : Option AttState) (ref : String) (frm : Option Nat)
+    (tree : Nat) (rule : String) (k : KeyId) : Bool :=
+  match P.findSpecific ("git:" ++ ref) with
+  | none => false
+  | some vs => vs.any (fun vn => vn.name == rule && vn.v.principals.any (fun p =>
+      p.keys.contains k &&
+      (match P.allPrincipals.find? (·.id == p.id) with
+       | some d => !contributed P A ref frm tree none d
+       | none => false)))
+
 /-- the history after the candidate recorder records the fast-forward merge -/
 def withMerge (W : World) (ref : String) (c : Nat) (signer : Option KeyId) : World :=
   { W with log := W.log ++ [{ kind := .ref, ref := ref, target := .commit c, signer := signer }] }
